@@ -435,8 +435,213 @@ fn run_hist(h: &Hist, tr: &Tracker, mode: FailMode, ar: &Arenas) -> RunOut {
     ro
 }
 
+// ---- gz layer: the Rust global allocator is the "caller-supplied allocator" there ---------------------------
+
+use crate::props::c17::{Gz, ROp, RsGz, WOp};
+use core::ffi::c_char;
+
+/// RsGz with the counting / failing global allocator armed exactly for the duration of each library call
+pub struct ArmedGz;
+macro_rules! armed {
+    ($e:expr) => {{
+        crate::galloc::arm();
+        let r = $e;
+        crate::galloc::disarm();
+        r
+    }};
+}
+impl Gz for ArmedGz {
+    const NAME: &'static str = "zlib-rs (allocator armed)";
+    unsafe fn open(path: *const c_char, mode: *const c_char) -> *mut c_void { armed!(unsafe { RsGz::open(path, mode) }) }
+    unsafe fn buffer(f: *mut c_void, size: c_uint) -> c_int { armed!(unsafe { RsGz::buffer(f, size) }) }
+    unsafe fn read(f: *mut c_void, buf: *mut u8, len: c_uint) -> c_int { armed!(unsafe { RsGz::read(f, buf, len) }) }
+    unsafe fn fread(buf: *mut u8, size: usize, n: usize, f: *mut c_void) -> usize { armed!(unsafe { RsGz::fread(buf, size, n, f) }) }
+    unsafe fn write(f: *mut c_void, buf: *const u8, len: c_uint) -> c_int { armed!(unsafe { RsGz::write(f, buf, len) }) }
+    unsafe fn fwrite(buf: *const u8, size: usize, n: usize, f: *mut c_void) -> usize { armed!(unsafe { RsGz::fwrite(buf, size, n, f) }) }
+    unsafe fn putc(f: *mut c_void, c: c_int) -> c_int { armed!(unsafe { RsGz::putc(f, c) }) }
+    unsafe fn puts(f: *mut c_void, s: *const c_char) -> c_int { armed!(unsafe { RsGz::puts(f, s) }) }
+    unsafe fn getc(f: *mut c_void) -> c_int { armed!(unsafe { RsGz::getc(f) }) }
+    unsafe fn ungetc(c: c_int, f: *mut c_void) -> c_int { armed!(unsafe { RsGz::ungetc(c, f) }) }
+    unsafe fn gets(f: *mut c_void, buf: *mut c_char, len: c_int) -> *mut c_char { armed!(unsafe { RsGz::gets(f, buf, len) }) }
+    unsafe fn seek(f: *mut c_void, off: i64, whence: c_int) -> i64 { armed!(unsafe { RsGz::seek(f, off, whence) }) }
+    unsafe fn rewind(f: *mut c_void) -> c_int { armed!(unsafe { RsGz::rewind(f) }) }
+    unsafe fn tell(f: *mut c_void) -> i64 { armed!(unsafe { RsGz::tell(f) }) }
+    unsafe fn offset(f: *mut c_void) -> i64 { armed!(unsafe { RsGz::offset(f) }) }
+    unsafe fn eof(f: *mut c_void) -> c_int { armed!(unsafe { RsGz::eof(f) }) }
+    unsafe fn direct(f: *mut c_void) -> c_int { armed!(unsafe { RsGz::direct(f) }) }
+    unsafe fn flush(f: *mut c_void, m: c_int) -> c_int { armed!(unsafe { RsGz::flush(f, m) }) }
+    unsafe fn setparams(f: *mut c_void, l: c_int, s: c_int) -> c_int { armed!(unsafe { RsGz::setparams(f, l, s) }) }
+    unsafe fn close(f: *mut c_void) -> c_int { armed!(unsafe { RsGz::close(f) }) }
+    unsafe fn clearerr(f: *mut c_void) { armed!(unsafe { RsGz::clearerr(f) }) }
+}
+
+/// gz histories (open, operations, close) under the counting allocator: balanced on the fault-free run, and for
+/// every failing request k (and fail-all-after-k): no leak after gzclose / a refused gzopen, no foreign free,
+/// no crash, and a following fault-free open/close cycle on the same file works
+fn gz_case(t: &mut Tape, ctx: &Ctx, o: &mut Outcome) {
+    let writing = t.below(5) < 2;
+    let bufsize = if t.chance(160) { Some(t.pick(&[8u32, 16, 64, 100, 512, 4096, 8192, 70000])) } else { None };
+    let sizes = [0usize, 1, 2, 7, 16, 100, 512, 1000, 4096, 8192, 8193, 20000, 70000];
+    let dir = crate::props::c17::tmpdir();
+    let path = format!("{}/c18-gz.bin", dir);
+    let nops = 1 + t.below(8);
+    let mut wops: Vec<WOp> = Vec::new();
+    let mut rops: Vec<ROp> = Vec::new();
+    let mut mode = String::new();
+    let mut pool: Vec<u8> = Vec::new();
+    let fclass;
+    if writing {
+        mode = t.pick(&["w", "wb", "w9", "w1", "w0", "wT", "wh", "wR", "a", "wf"]).to_string();
+        pool = gen_data(t, 15, 20_000);
+        if pool.is_empty() {
+            pool.push(b'x');
+        }
+        for _ in 0..nops {
+            wops.push(match t.below(12) {
+                0..=4 => WOp::Write(t.pick(&sizes)),
+                5 => WOp::FWrite(t.pick(&[1usize, 2, 7, 100]), t.pick(&[0usize, 1, 10, 100])),
+                6 => WOp::Putc(t.u8()),
+                7 => WOp::Puts(t.pick(&[0usize, 1, 100, 5000])),
+                8 => WOp::Flush(t.pick(&[0, 2, 3, 4])),
+                9 => WOp::SetParams(t.pick(&[0, 1, 6, 9]), t.pick(&[0, 1, 2, 3, 4])),
+                10 => WOp::Seek(t.pick(&[0i64, 1, 100, 70000, -1]), t.pick(&[0, 1, 1])),
+                _ => WOp::Tell,
+            });
+        }
+        let _ = std::fs::remove_file(&path);
+        fclass = "gz write history";
+    } else {
+        let k = t.below(8);
+        let n = t.pick(&[0usize, 5, 600, 9000, 70_000]);
+        let d = gen_data(t, 15, n);
+        let cfg = DefCfg { level: t.pick(&[0, 1, 6, 9]), strategy: 0, wrap: crate::refimpl::rgzh::Wrap::Gzip, wbits: 15, mem_level: 8 };
+        let member = deflate_oneshot::<Ng>(&cfg, &d, None).unwrap_or_default();
+        let file: Vec<u8> = match k {
+            0..=2 => member,
+            3 => {
+                let mut f = member.clone();
+                f.extend_from_slice(&member);
+                f
+            }
+            4 => {
+                let mut p = d.clone();
+                if p.is_empty() || p[0] == 0x1f {
+                    p.insert(0, b'p');
+                }
+                p
+            }
+            5 => Vec::new(),
+            6 => member[..t.below(member.len().max(1))].to_vec(),
+            _ => {
+                let mut f = member.clone();
+                if !f.is_empty() {
+                    let i = t.below(f.len());
+                    f[i] ^= 1 << t.below(8);
+                }
+                f
+            }
+        };
+        fclass = ["gz read: gzip member", "gz read: gzip member", "gz read: gzip member", "gz read: two members", "gz read: plain file (direct mode)", "gz read: empty file (direct mode)", "gz read: truncated member", "gz read: corrupted member"][k];
+        let _ = std::fs::write(&path, &file);
+        for _ in 0..nops {
+            rops.push(match t.below(12) {
+                0..=3 => ROp::Read(t.pick(&sizes)),
+                4 => ROp::FRead(t.pick(&[1usize, 2, 7, 100]), t.pick(&[0usize, 1, 10, 100])),
+                5 => ROp::Getc,
+                6 => ROp::Ungetc(t.pick(&[b'a' as c_int, 0, 255])),
+                7 => ROp::Gets(t.pick(&[1, 2, 10, 100, 5000])),
+                8 => ROp::Seek(t.pick(&[0i64, 1, 100, 5000, 70000, -1]), t.pick(&[0, 1, 1])),
+                9 => ROp::Rewind,
+                10 => ROp::Direct,
+                _ => ROp::Eof,
+            });
+        }
+    }
+    // one run; returns (open succeeded, close rc)
+    let run = |fail_at: Option<usize>, fail_after: bool| -> (bool, c_int) {
+        crate::galloc::reset(fail_at, fail_after);
+        if writing {
+            let _ = std::fs::remove_file(&path);
+            let (r, rc) = crate::props::c17::run_write::<ArmedGz>(&path, &mode, bufsize, &wops, &pool);
+            (r.is_some(), rc)
+        } else {
+            match crate::props::c17::run_read::<ArmedGz>(&path, bufsize, &rops) {
+                Some((_, rc)) => (true, rc),
+                None => (false, -100),
+            }
+        }
+    };
+    let describe = |k: Option<usize>, fa: bool| -> String { if writing { format!("gzopen(mode {:?}) gzbuffer {:?} ops {:?} gzclose; failing request {:?} (fail all later ones: {})", mode, bufsize, wops, k, fa) } else { format!("{}: gzopen(rb) gzbuffer {:?} ops {:?} gzclose; failing request {:?} (fail all later ones: {})", fclass, bufsize, rops, k, fa) } };
+    let verdict = |o: &mut Outcome, k: Option<usize>, fa: bool| -> bool {
+        let (n, b) = crate::galloc::live();
+        if crate::galloc::overflow() {
+            o.internal = Some("galloc table overflow".into());
+            return false;
+        }
+        if n != 0 {
+            o.fail("gz/leak", format!("{} block(s) / {} byte(s) obtained from the allocator by the gz layer are still live after gzclose (or after a refused gzopen) [{}]", n, b, describe(k, fa)));
+            return false;
+        }
+        if crate::galloc::foreign_frees() != 0 {
+            o.fail("gz/bad-free", format!("the gz layer released {} block(s) it had not obtained [{}]", crate::galloc::foreign_frees(), describe(k, fa)));
+            return false;
+        }
+        true
+    };
+    let (opened, _rc0) = run(None, false);
+    let nreq = crate::galloc::requests();
+    o.evals = 1;
+    if !verdict(o, None, false) {
+        return;
+    }
+    if nreq == 0 {
+        // allocator not installed in this build (nothing to count): no verdict
+        return;
+    }
+    o.class(fclass);
+    let fa_too = t.chance(90);
+    let ks: Vec<usize> = if nreq <= 40 { (0..nreq).collect() } else { (0..40).map(|i| i * nreq / 40).collect() };
+    for &k in &ks {
+        for fa in [false, true] {
+            if fa && !fa_too {
+                continue;
+            }
+            let _ = run(Some(k), fa);
+            o.evals += 1;
+            if !verdict(o, Some(k), fa) {
+                return;
+            }
+            // re-initialisation after the failure: a fault-free cycle must work like the first one
+            let (opened2, _) = run(None, false);
+            if !verdict(o, Some(k), fa) {
+                return;
+            }
+            if opened2 != opened {
+                o.fail("gz/reopen-after-failure", format!("after a run with an injected allocation failure gzopen on the same file answers differently (handle {} vs {}) [{}]", opened2, opened, describe(Some(k), fa)));
+                return;
+            }
+        }
+    }
+    crate::galloc::reset(None, false);
+    o.class("gz layer: every failing request enumerated");
+    let mut fp = Fp::new();
+    fp.bytes(describe(None, false).as_bytes()).bytes(&pool[..pool.len().min(64)]);
+    o.nontrivial = Some(fp.0);
+    if ctx.want_sample {
+        o.sample = Some(J::obj().set("kind", J::s("gz layer")).set("history", J::s(describe(None, false))).set("allocation_requests", J::U(nreq as u64)).set("failure_points_enumerated", J::U(ks.len() as u64)));
+    }
+}
+
 pub fn case(tape: &[u8], ctx: &Ctx) -> Outcome {
     let mut o = Outcome::new();
+    // one case in ~5 drives the gz layer (selected by the last tape byte; the rest is its tape)
+    if let Some((&last, rest)) = tape.split_last() {
+        if last >= 208 {
+            let mut t = Tape::new(rest);
+            gz_case(&mut t, ctx, &mut o);
+            return o;
+        }
+    }
     let mut t = Tape::new(tape);
     let kind = [0usize, 0, 1, 1, 2][t.below(5)];
     let mut cfg = gen_cfg(&mut t);
